@@ -458,6 +458,7 @@ def run_check(check, tier, seed):
         'unsat': counts.get('unsat', 0),
         'sat': counts.get('sat', 0),
         'unknown': counts.get('unknown', 0),
+        'undecided_inputs': [str(r.get('input'))[:240] for r in results if r.get('verdict') == 'unknown'][:40],
         'held_concrete': counts.get('held-concrete', 0),
         'violation_concrete': counts.get('violation-concrete', 0),
         'solver_ms_total': solver_ms,
